@@ -18,6 +18,7 @@ kind = z3.Function("kind", TermSort, Kind)
 term_truthy = z3.Function("term_truthy", TermSort, z3.BoolSort())
 term_str = z3.Function("term_str", TermSort, z3.StringSort())
 
+term_is = z3.Function("term_is_same_object", TermSort, TermSort, z3.BoolSort())
 TERM = TUn("Term", truthy=term_truthy)
 TRIPLE = TTuple(TERM, TERM, TERM, name="Triple")
 OTERM = TOpt(TERM)
@@ -69,6 +70,8 @@ class RDFModel(Model):
             self.axioms.append(term_truthy(c))
         cs = list(self.rdf_consts.values())
         self.axioms.append(z3.Distinct(*cs))
+        ia, ib = z3.Consts("is_a is_b", TermSort)
+        self.axioms.append(z3.ForAll([ia, ib], z3.Implies(term_is(ia, ib), ia == ib)))
         g["RDF"] = ModuleNS("RDF", {n: SV(TERM, c) for n, c in self.rdf_consts.items()})
         for cname, k in (("URIRef", K_URIREF), ("BNode", K_BNODE), ("Literal", K_LITERAL),
                          ("Variable", K_VARIABLE)):
@@ -92,6 +95,17 @@ class RDFModel(Model):
             if n == "IdentifiedNode":
                 return z3.Or(kind(v.z) == K_URIREF, kind(v.z) == K_BNODE)
             return False
+        return NotImplemented
+
+    def value_identity(self, it, a, b):
+        """`a is b` on terms: object identity implies equality, nothing more is known (two equal terms
+        may or may not be the same Python object)."""
+        if a.ty.sort() == TermSort:
+            za, zb = a.z, b.z
+            if z3.is_select(za) and z3.is_select(zb) and za.arg(0).eq(zb.arg(0)):
+                # the same attribute of the same object is the same Python object
+                return z3.Or(za.arg(1) == zb.arg(1), term_is(za, zb))
+            return term_is(za, zb)
         return NotImplemented
 
     def fresh_bnode(self, it):
